@@ -204,6 +204,38 @@ def _derives_from_local(b, l, x, depth=0):
     return False
 
 
+def rule_raw_first(chk, fb):
+    """Raw sheets bring parts under fixed names; parts of loaded sheets are numbered around what is already in the
+    archive. That only works if every raw sheet has been written before the first number is handed out."""
+    re_ = chk.rule(
+        "C11.e",
+        "raw parts first: in the package writer no call that writes a raw (unloaded) sheet with its original parts is reachable from a call that allocates a numbered part name against the archive's contents",
+        floor=1,
+    )
+    d = "writer::xlsx::make_buffer"
+    b = fb.mir.get(d)
+    if not b:
+        chk.ob(re_, "anchor", False, detail="package writer not found")
+        return
+    WM = "structs::writer_manager::WriterManager"
+    alloc = {x for x, xb in fb.mir.items() if (xb.get("self_ty") or "").startswith(WM) and x.split("::")[-1] not in ("add_writer", "add_bin", "check_file_exist") and any(t.get("fn", "").endswith("::check_file_exist") for _, t in fb.calls_in(xb))}
+    raw_writers = {x for x, xb in fb.mir.items() if (xb.get("self_ty") or "").endswith("RawWorksheet") and any(t.get("fn", "").endswith("::add_bin") for _, t in fb.calls_in(xb))}
+    cfg = CFG(b)
+    memo = {}
+
+    def reaches_alloc(f):
+        if f not in memo:
+            memo[f] = f in alloc or (f in fb.mir and bool(alloc & fb.reachable_from([f])))
+        return memo[f]
+
+    A = [(bi, t) for bi, t in fb.calls_in(b) if reaches_alloc(t.get("fn", ""))]
+    R = [(bi, t) for bi, t in fb.calls_in(b) if t.get("fn") in raw_writers]
+    chk.touch(d)
+    bad = [(a, r_) for a in A for r_ in R if r_[0] in cfg.reachable_strict(a[0])]
+    chk.ob(re_, "make_buffer:raw-before-allocation", bool(A) and bool(R) and not bad, where=fb.loc(d),
+           detail="%d allocating call(s), %d raw-sheet write(s); %s" % (len(A), len(R), "no raw write follows an allocation" if not bad else "a raw sheet can be written AFTER `%s` (line %s) picked a number: its part of the same name is then silently skipped and the sheet is attached to the other sheet's part" % (bad[0][0][1]["fn"].split("::")[-2] + "::" + bad[0][0][1]["fn"].split("::")[-1], bad[0][0][1]["ln"])))
+
+
 def run(chk, fb, tier):
     mat = find_materialiser(fb)
     chk.rule("C11.anchor", "the materialiser located by role (raw -> deserialized, &mut Worksheet)", floor=1)
@@ -249,7 +281,8 @@ def run(chk, fb, tier):
         if b.get("self_ty") == SP and b["kind"] == "AssocFn":
             cfg = CFG(b)
             for bi, t in fb.calls_in(b):
-                if t.get("fn") == mat and any(x in cfg.natural_loop(tail, head) for tail, head in cfg.back_edges() for x in [bi]):
+                # the loop that materialises every sheet is entered on every path (no early return in front of it)
+                if t.get("fn") == mat and any(bi in cfg.natural_loop(tail, head) and (cfg.postdominates(head, 0) or head == 0) for tail, head in cfg.back_edges()):
                     mat_all.add(d)
     changed = True
     while changed:
@@ -393,6 +426,7 @@ def run(chk, fb, tier):
 
     C12.rule_table_choice(chk, fb, "C11.c")
     rule_positions(chk, fb)
+    rule_raw_first(chk, fb)
     from props import C02
 
     C02.rule_fresh_names(chk, fb, "C11.d")
